@@ -86,7 +86,7 @@ package samlidp
 //@ -- filled completely from the configured source (io.ReadFull: one Read may come up short); the panic on a failing
 //@ -- source is an environment fault and not counted
 //@ contract randomBytes
-//@ requires[cfg] n: n >= 0
+//@ requires n: n >= 0
 //@ ensures[C19] length: len(result) == n
 //@ assert@call[C19] io.ReadFull #1 (r io.Reader, buf []byte) uses rv []byte fills_all_from_configured_source:
 //@    r == saml.RandReader && sameBytes(buf, rv) && len(buf) == n
